@@ -12,7 +12,7 @@ RULE = ("every frequency-of-frequency vector of the bound (as list and ndarray) 
         "missing values; non-trivial = f2>0 (richness) / non-empty intersection (overlap)")
 ASSUMPTIONS = ["float results compared with the exact rational closed form to 1e-12 relative",
                "jaccard_index: missing values only inside Series (documented behaviour); ratio forms only where both element sets are non-empty after removal"]
-REQUIRED_CLASSES = {"all": ["f2-zero", "f2-positive", "length-1-vector", "set-container", "series-with-missing", "duplicates"]}
+REQUIRED_CLASSES = {"all": ["f2-zero", "f2-positive", "length-1-vector", "set-container", "series-with-missing", "duplicates", "large-counts"]}
 MIN_OUTCOMES = 8
 NAN = float("nan")
 ELEMS = ("a", "b", "c", None, NAN)
@@ -27,6 +27,12 @@ def spaces(tier):
             for v in itertools.product(range(top + 1), repeat=n):
                 yield ("ff", v)
 
+    def gen_mag():
+        for f1 in (255, 256, 55108, 55109, 65535, 65536, 2 ** 21 + 1, 2 ** 31 - 1):
+            for f2 in (0, 1, 3, 1000, 65536, 2 ** 21 + 1):
+                yield ("ff", (f1, f2, 40, 3))
+                yield ("ff", (f1, f2))
+
     def gen_ov():
         idx = range(len(ELEMS))
         lists = [t for n in range(0, 4) for t in itertools.product(idx, repeat=n)]
@@ -35,6 +41,7 @@ def spaces(tier):
 
     return [
         Space("frequency-of-frequency-vectors", gen_ff, "all vectors of length 1..4 with entries 0..4 (quick) / length 1..5, entries 0..5 (thorough), as list and ndarray, m in {2,5}"),
+        Space("magnitude-boundary-family", gen_mag, "f1 in {2^8-1, 2^8, 55108, 55109, 2^16-1, 2^16, 2^21+1, 2^31-1} x f2 in {0, 1, 3, 1000, 2^16, 2^21+1}, as list and as int64 ndarray (int64 powers of such counts overflow)"),
         Space("collection-pairs", gen_ov, "A, B in all lists of length 0..3 over {a,b,c,None,NaN} (156 x 156 pairs; one case = one A against every B) x {list, tuple, set, Series}; also with numeric elements"),
     ]
 
@@ -74,6 +81,8 @@ def check_case(case, acc):
         c1, c2, var = chao_ref(v)
         f2 = v[1] if len(v) > 1 else 0
         acc.cls("f2-positive" if f2 > 0 else "f2-zero")
+        if max(v) > 50000:
+            acc.cls("large-counts")
         if len(v) == 1:
             acc.cls("length-1-vector")
         for cname, box in (("list", list), ("ndarray", np.array)):
